@@ -14,6 +14,37 @@ def classify(clause, lines):
     return "unclassified"
 
 
+# Behaviour-preserving rewrites of the anchored code the check must stay silent on (patches: corpus/C03/negative_controls/*.diff,
+# documentation only).  Each was compiled into a scratch object, linked into a scratch harness and run through
+# correspondence() (corpus + quick generator, seed 1): 0 mismatches, 0 spec failures.
+NEGATIVE_CONTROLS = [
+    "nc1_reorder: BeginExecuteNotification - renamed local, reordered independent statements (number / last_notification / next), "
+    "Recovery+Acknowledgement 'was notified' tests merged into one extracted lambda, checkable lookup moved",
+    "nc2_logtext: every log message of notification.cpp, notificationcomponent.cpp, checkable-notification.cpp reworded, log level changed",
+    "nc3_representation: users walked in reverse set order, direct users collected through a vector, last_notified_state_per_user written "
+    "unconditionally (explicit 0 entries), notified_problem_users may hold a name twice, no_more_notifications only maintained where it is "
+    "read (interval <= 0), notification objects visited in reverse order by SendNotifications and by the timer handler "
+    "(alarmed under the first, literal attribute comparison - now compared as denotation, see Driver/C03.lean)",
+    "nc4_guards: CheckNotificationUserFilters with early return instead of if/else, enable flag + user filters as one guard, times.end "
+    "as nested ifs, the reminder handler's chain of `continue` guards as one condition, interval/no_more guard and the enable-flag guard "
+    "of SendNotifications respelled",
+    "nc5_helpers: file-static helpers of notificationcomponent.cpp renamed, comments / braces / blank lines / line breaks around the "
+    "privately accessed NotificationTimerHandler and ApiListener::m_UpdatedObjectAuthority (its type is deduced by the harness)",
+    "nc6_next_in_past: a never-used next_notification stamped 'a moment ago' instead of 0, due-test respelled, per-notification part of "
+    "SendNotifications extracted into a lambda (alarmed under the literal comparison of next_notification - now clamped to the present)",
+]
+# Seeded changes re-run after the comparison was loosened; all still reported with a concrete failing input (clause in brackets).
+SEEDED_CHANGES = [
+    "timer guard ANDs instead of ORs the two pending-Problem bits [no_reminder_while_the_initial_problem_is_held_back]",
+    "Recovery 'was notified before' test removed [recovery_ack_only_to_users_sent_a_problem_this_incident]",
+    "user period skipped in CheckNotificationUserFilters [delivery_only_if_user_enabled_period_open_filters_admit]",
+    "IsInDowntime() dropped from the reminder conditions [reminder_only_in_hard_unsuppressed_nonflapping_problem]",
+    "no_more_notifications := true dropped [interval_zero_no_reminder_after_problem]",
+    "notified_problem_users not cleared after a sent Recovery [recovery_ack_only_to_users_sent_a_problem_this_incident]",
+    "next_notification := now + interval / 2 [reminder_at_least_interval_after_last_problem]",
+]
+
+
 class C03(StdCheck):
     prop = "C03"
     exhaustive = True
@@ -53,8 +84,10 @@ class C03(StdCheck):
         "run), unlabelled events take force_next_notification as read before the call",
         "'no duplicate Problem for the same state' is read as: not for the state of the Problem the user was sent last (WARNING, CRITICAL, "
         "WARNING without a Recovery are three legitimate notifications)",
-        "notification_number is reset by ProcessCheckResult outside the modelled code; the driver takes the implementation's value after "
-        "every real check result ('z' lines)",
+        "bookkeeping attributes are compared as their property-relevant denotation only: notified_problem_users as a set, "
+        "last_notified_state_per_user as the function the code reads (missing = 0), next_notification clamped to the present, "
+        "no_more_notifications only for interval <= 0, suppressed_notifications on its four bits, the stash as ordered (type, force) list; "
+        "notification_number is not compared",
     ]
     assumptions = ["integer timestamps", "the period and the checkable facts do not change during one handler run",
                    "user ids are distinct (std::set of users)"]
@@ -92,10 +125,12 @@ class C03(StdCheck):
             shown = self.shrink(harness, driver, case, "SPECFAIL", "clause=" + cl)
             res.spec_failures.append(runner.Finding("spec", what, shown, {"driver": l, "cases_in_group": len(cases)},
                                                     {"clause": cl, "pre_class": pre}))
-        n = 0
+        n = tried = 0
         seen_m = set()
         for l in lines:
-            if l.startswith("MISMATCH") and n < self.max_shrunk:
+            # (at most a handful of shrink attempts: thousands of mismatches usually minimise to the same few cases)
+            if l.startswith("MISMATCH") and n < self.max_shrunk and tried < 2 * self.max_shrunk:
+                tried += 1
                 kv = core.parse_kv(l)
                 case = runner.extract_case(save, int(kv["case"]), self.case_start)
                 shown = self.shrink(harness, driver, case, "MISMATCH")
